@@ -20,7 +20,7 @@ impl crate::crypto::AeadKey for TagKey {
     }
 }
 
-struct TagTokenKey;
+pub struct TagTokenKey;
 
 impl HandshakeTokenKey for TagTokenKey {
     fn aead_from_hkdf(&self, random_bytes: &[u8]) -> Box<dyn crate::crypto::AeadKey> {
@@ -42,7 +42,7 @@ impl crate::crypto::ServerConfig for NoCrypto {
     }
 }
 
-struct FixedTime(SystemTime);
+pub struct FixedTime(pub SystemTime);
 
 impl crate::TimeSource for FixedTime {
     fn now(&self) -> SystemTime {
